@@ -780,9 +780,12 @@ class unyt_array(np.ndarray):
                         RuntimeWarning,
                         stacklevel=2,
                     )
-                # scale before narrowing to the float type of the same width,
-                # like in_units does
-                float_values = (values * conv_factor).astype(new_dtype)
+                # scale (and shift) before narrowing to the float type of the
+                # same width, like in_units does
+                scaled = values * conv_factor
+                if offset:
+                    scaled = scaled - offset
+                float_values = scaled.astype(new_dtype)
                 # change the dtypes in-place, this does not change the
                 # underlying memory buffer
                 values.dtype = new_dtype
@@ -792,9 +795,8 @@ class unyt_array(np.ndarray):
                 np.copyto(values, float_values)
             else:
                 values *= conv_factor
-
-            if offset:
-                np.subtract(values, offset, values)
+                if offset:
+                    np.subtract(values, offset, values)
             # only relabel once the data has actually been converted, so that a
             # failed conversion leaves the array as it was
             self.units = new_units
@@ -968,9 +970,11 @@ class unyt_array(np.ndarray):
                     )
             new_dtypekind = "c" if self.dtype.kind == "c" else "f"
             new_dtype = np.dtype(new_dtypekind + str(dsize))
-            ret = np.asarray(self.ndview * conversion_factor, dtype=new_dtype)
+            ret = self.ndview * conversion_factor
             if offset:
-                np.subtract(ret, offset, ret)
+                # shift before narrowing integer data to a small float type
+                ret = ret - offset
+            ret = np.asarray(ret, dtype=new_dtype)
 
             try:
                 new_array = type(self)(
